@@ -25,8 +25,9 @@ RULES = {
     "R4": "selection: eligible list from both filters; None only when empty; min over eligible ids; argmin; one mask for ids and scores",
     "R5": "holder persistence and combination: table agreement; same operand order for scores and ids",
     "R6": "CLI wiring of score_chunk / select_next_plate arguments; output str(plate_id) or -1",
+    "R7": "the derived screen attributes this property's code relies on (is_observed, unique_plate_ids) have their documented definitions in ScreenBase and every override",
 }
-MIN = {"R1": 3, "R2": 2, "R3": 2, "R4": 5, "R5": 5, "R6": 4}
+MIN = {"R1": 3, "R2": 2, "R3": 2, "R4": 5, "R5": 5, "R6": 4, "R7": 2}
 TRUSTED = ["np.array_split(L, n)[k] for k in range(n) partitions L (library contract)", "np.argmin returns the first minimum",
            "np.isin(ids, eligible) is an exact membership mask"]
 TECHNIQUE = "def-use slices of the candidate list, relational normal forms of the filters, writer/reader table agreement, argument wiring"
@@ -884,7 +885,11 @@ def r_bsearch(ctx):
         ctx.ok("R4", "binary-search::none", "no np.searchsorted in the anchored modules")
 
 
-RULE_FUNCS = [r1, r2, r2b, r3, r4, r5, r6, r_bsearch]
+def r_derived(ctx):
+    common.derived_attributes(ctx, "R7", ['is_observed', 'unique_plate_ids'])
+
+
+RULE_FUNCS = [r1, r2, r2b, r3, r4, r5, r6, r_bsearch, r_derived]
 
 
 def run(ctx):
